@@ -163,4 +163,4 @@ func runOne(t *testing.T, def propDef, plan *Plan, trace bool) *RunResult {
 }
 
 // properties that own the generic wire assertions (undecodable / oversize DUT messages)
-var wireOwners = map[string]bool{"C10": true, "C22": true}
+var wireOwners = map[string]bool{"C10": true, "C22": true, "C31": true, "C32": true, "C33": true}
